@@ -4,7 +4,7 @@
    Statements only; proofs in Proofs/RegressionP.v. *)
 From Coq Require Import ZArith List Bool QArith Qcanon String.
 From TE Require Import Base.Val Base.Nd Base.Xq Algebra.Metric Algebra.MergeTree
-  Models.Aggregation Models.Aggregation2 Models.Regression Models.Stat Proofs.RegressionP.
+  Models.Aggregation Models.Aggregation2 Models.Regression Models.Stat Proofs.RegressionP Proofs.CovP.
 Import ListNotations.
 Open Scope list_scope.
 Open Scope Qc_scope.
@@ -59,6 +59,25 @@ Theorem cov_chan_entry_spec : forall xa za xb zb : list Qc,
     * (lenQ xb * lenQ xa) / (lenQ xa + lenQ xb))
   = ss_batch (xa ++ xb) (za ++ zb).
 Proof. exact chan_entry. Qed.
+
+(* the same at the level of the model's vectors / matrices: Covariance._update applied to the statistics of
+   two non-empty batches is the two-pass statistic (sum, scatter around the mean) of the concatenated rows *)
+Theorem cov_chan_spec : forall d a b, rows_ok d a = true -> rows_ok d b = true -> a <> [] -> b <> [] ->
+  cov_step (cov_stat d a) (cov_stat d b) = cov_stat d (a ++ b).
+Proof. exact cov_step_concat. Qed.
+(* streaming = two-pass for every non-empty stream of non-empty batches *)
+Theorem cov_stream_spec : forall d b bs, Forall (fun b => rows_ok d b = true /\ b <> []) (b :: bs) ->
+  fold_left (upd cov_metric d) (b :: bs) (init cov_metric d) = cov_stat d (List.concat (b :: bs)).
+Proof. exact cov_stream. Qed.
+(* compute(): mean = sum/n and the UNBIASED covariance scatter/(n-1) of the two-pass definition; ValueError for n < 2 *)
+Theorem cov_two_pass_spec : forall d rows, rows_ok d rows = true -> (2 <= List.length rows)%nat ->
+  let n := qofnat (List.length rows) in
+  cov_cmp (cov_stat d rows) =
+  CovVal (vec_of d (fun i => sumQ (col i rows) / n))
+         (mat_of d (fun i j => (0 + scatter (sumQ (col i rows) / n) (sumQ (col j rows) / n) (col i rows) (col j rows)) / (n - 1))).
+Proof. exact cov_compute_two_pass. Qed.
+Theorem cov_guard_too_few_samples : forall s, (cv_n s < 2)%Z -> cov_cmp s = CovErr "ValueError".
+Proof. exact cov_guard. Qed.
 
 (* ---- AUC: trapezoid rule over the pairs, after a STABLE sort by x when reorder=True
    (pairs with equal x keep their input order: the result is order-dependent inside x-ties, C12) ---- *)
@@ -133,3 +152,7 @@ Print Assumptions psnr_spec.
 Print Assumptions perplexity_spec.
 Print Assumptions ne_counts_spec.
 Print Assumptions ne_term_spec.
+Print Assumptions cov_chan_spec.
+Print Assumptions cov_stream_spec.
+Print Assumptions cov_two_pass_spec.
+Print Assumptions cov_guard_too_few_samples.
